@@ -294,10 +294,59 @@ def stage_validator(ctx, e):
     ctx.coverage["validator_accepted"] = nacc
 
 
+def stage_stat_fault(ctx, e):
+    """"missing" is recorded only when the file is absent: an intact file whose stat fails with an I/O error (EIO, ESTALE,
+    EACCES; once or persistently) must not get the verdict N (nor any other verdict it has not earned)"""
+    import errno
+    import pathlib
+    from alpenhorn.db import ArchiveAcq, ArchiveFile, ArchiveFileCopy, StorageNode
+    from alpenhorn.io.default import DefaultNodeIO
+    from alpenhorn.io._default_asyncs import check_async
+    from alpenhorn.scheduler import FairMultiFIFOQueue
+    node = StorageNode.get(name="n1")
+    acq = ArchiveAcq.get(name="acq")
+    real_stat = pathlib.Path.stat
+    for i, (err, persistent) in enumerate([(errno.EIO, False), (errno.EIO, True), (errno.ESTALE, False), (errno.EACCES, True)]):
+        data = b"intact %d" % i
+        name = f"statfault/s{i}.dat"
+        frow = ArchiveFile.create(acq=acq, name=name, size_b=len(data), md5sum=hexdigest(data))
+        path = os.path.join(node.root, "acq", name)
+        os.makedirs(os.path.dirname(path), exist_ok=True)
+        with open(path, "wb") as f:
+            f.write(data)
+        copy = ArchiveFileCopy.create(file=frow, node=node, has_file="M", wants_file="Y")
+        fired = []
+
+        def failing_stat(self_, *a, **k):
+            if str(self_) == path and (persistent or not fired):
+                fired.append(1)
+                raise OSError(err, os.strerror(err), path)
+            return real_stat(self_, *a, **k)
+        pathlib.Path.stat = failing_stat
+        raised = None
+        try:
+            check_async(None, DefaultNodeIO(node, {}, FairMultiFIFOQueue()), ArchiveFileCopy.get(id=copy.id))
+        except OSError as ex:
+            raised = type(ex).__name__
+        finally:
+            pathlib.Path.stat = real_stat
+        real = ArchiveFileCopy.get(id=copy.id).has_file
+        ctx.case(("stat-fault", err, persistent), nontrivial=True)
+        ctx.count(f"verdict:stat-fault:{real}{'/raised' if raised else ''}")
+        if fired and real == "N":
+            ctx.violation("verdict-statfault-missing", f"the check recorded the copy missing (N) although the file is on disk and intact: its "
+                          f"stat had failed with {errno.errorcode[err]} ({'every time' if persistent else 'once'})",
+                          {"kind": "stat-fault", "errno": errno.errorcode[err], "persistent": persistent})
+        elif fired and persistent and real in ("Y", "X"):
+            ctx.violation("verdict-statfault-verdict", f"the check gave the verdict {real} for a file it could not stat ({errno.errorcode[err]})",
+                          {"kind": "stat-fault", "errno": errno.errorcode[err]})
+
+
 def run(ctx):
     ok = common.proof_stage(ctx, MODULE)
     with envmod.CliEnv() as e:
         stage_verdict(ctx, e)
+        stage_stat_fault(ctx, e)
         stage_md5(ctx, e)
         stage_validator(ctx, e)
     ctx.corr_broken = ctx.corr_broken[:6]
